@@ -435,8 +435,12 @@ class ProcProxyThread(threading.Thread):
             )
         else:
             sp_stdout = sys.stdout
-        # stderr
-        if self.errwrite == self.c2pwrite:
+        # stderr: the same stream as stdout for ``e>o`` and for one file
+        # shared by both (``a> file``) -- not merely because neither stream
+        # was redirected (both descriptors -1)
+        if self.errwrite == self.c2pwrite and (
+            self.errwrite != -1 or self.stderr == subprocess.STDOUT
+        ):
             sp_stderr = sp_stdout
         elif self.errwrite != -1:
             sp_stderr = io.TextIOWrapper(
